@@ -429,3 +429,32 @@ def dedup(ctx):
                       '' if ok else 'two files are declared identical (and hard-linked) on equal size and equal 32-bit hash only; '
                       'no byte-wise comparison (filecmp.cmp(..., shallow=False)) dominates the decision'))
     return obs
+
+
+@rule('SA-STR.tool')
+@props('C20', 'C18')
+def str_tool(ctx):
+    """build_iso_path: the collision prefix that is combined with a number (and, for files, with the
+    extension) must consist of identifier characters only - i.e. be cut from the mangled basename, not
+    from the joined name that already contains the '.' and ';' separators."""
+    from .. import strdom
+    from .strrule import _allowed_classes
+    fi = ctx.func('tool_genisoimage.build_iso_path')
+    allowed, _ = _allowed_classes(ctx)
+    funcs = {nm: ctx.func('utils.' + nm) for nm in ('truncate_basename', 'mangle_file_for_iso9660', 'mangle_dir_for_iso9660')}
+    obs = []
+    for level in (1, 2, 3):
+        for is_dir in (True, False):
+            it = strdom.Interp(ctx, funcs, watch=('prefix', 'tmp'))
+            it.run(fi, [strdom.TOP, strdom.S(1, strdom.INF, strdom.ALL), level, is_dir])
+            pv = it.watched.get('prefix')
+            key = '%s|level %d|is_dir %s|collision prefix' % (fi.qual, level, is_dir)
+            if pv is None:
+                raise AnalysisError('anchor-vanished: local `prefix` in build_iso_path')
+            bad = (pv.chars - allowed) if isinstance(pv, strdom.S) else {'?'}
+            ok = not bad
+            obs.append(Ob('SA-STR.tool', key, ok, ctx.loc(fi, fi.node),
+                          '' if ok else 'the prefix used to number colliding names may contain %s: it is cut from the joined name '
+                          '(basename + separators + extension), so the renamed entry can carry a second separator and is refused by add_file'
+                          % sorted(bad)))
+    return obs
